@@ -114,6 +114,11 @@ impl KeySet {
         self.compact();
         self.keys.len()
     }
+    /// Sorted, de-duplicated keys.
+    pub fn sorted(&mut self) -> &[u64] {
+        self.compact();
+        &self.keys
+    }
     pub fn is_empty(&mut self) -> bool {
         self.len() == 0
     }
